@@ -12,9 +12,8 @@ Definition h_code_of := code_of.
 Definition h_demand := spec_demand.
 Definition h_f7 (ngc : bool) := f7_cell (cfg_src ngc).
 Definition h_matched (ngc : bool) := matched_total (cfg_src ngc).
-Definition h_obj_eqb := obj_eqb.
 Definition h_rules_ok := hdr_rules_ok.
 Definition h_zn : Z -> N := Z.to_N.     (* brings positive / Z / N into the module for conv.ml.inc *)
 
 Extraction Language OCaml.
-Extraction "../ocaml/gen/Header.ml" h_produce h_run h_valid h_type_of h_spec_type h_spec_class h_code_of h_demand h_f7 h_matched h_obj_eqb h_rules_ok h_zn is_obj_ev is_free_obj is_buf_ev.
+Extraction "../ocaml/gen/Header.ml" h_produce h_run h_valid h_type_of h_spec_type h_spec_class h_code_of h_demand h_f7 h_matched h_rules_ok h_zn is_obj_ev is_free_obj is_buf_ev.
